@@ -109,7 +109,6 @@ def handle (j : Json) : Json :=
         ("wellKeyed", Json.bool (decide (TableWellKeyed m))),
         ("refsScoped", Json.bool (decide (RefsScoped m))),
         ("noDup", Json.bool (decide (NoDupIds m))),
-        ("noMultiLocals", Json.bool (decide (NoMultiLocals m))),
         -- per binding: is it never read (hypothesis of C10_never_read_unused), what does the sentence demand
         ("neverRead", Json.arr (m.allNames.map fun b => Json.bool (decide (NeverRead m b))).toArray),
         ("valid", Json.arr (m.allNames.map fun b => Json.bool (decide (specFactsOf b false).Valid)).toArray),
